@@ -253,7 +253,11 @@ def explore(fn, params, cpu_budget=60.0, per_path_timeout=10.0, active_kf=(),
             res['verdict'] = 'confirmed'
         else:
             res['verdict'] = 'incomplete'
-            res['reasons'].append('vacuous: no path evaluated an assertion')
+            if active_kf and res['pruned'] == res['paths']:
+                res['reasons'].append('nothing explored: every path lies inside the region of an open known finding (%s)'
+                                      % ', '.join(sorted(active_kf)))
+            else:
+                res['reasons'].append('vacuous: no path evaluated an assertion')
     else:
         res['verdict'] = 'incomplete'
         if res['disagreements']:
